@@ -13,7 +13,7 @@ func usage() {
   verif selftest [--limit N]
   verif check <property-id> [--tier quick|thorough]
   verif replay <fixture.json>
-  verif solverdiff <dir>`)
+  verif solverdiff <property-id> [--job <substring>]`)
 	os.Exit(2)
 }
 
@@ -73,6 +73,11 @@ func main() {
 			usage()
 		}
 		code = cmdCheck(pos[0], flags)
+	case "solverdiff":
+		if len(pos) < 1 {
+			usage()
+		}
+		code = cmdSolverDiff(pos[0], flags)
 	case "replay":
 		if len(pos) < 1 {
 			usage()
